@@ -270,7 +270,7 @@ theorem stepTodos_wait (fuel : Nat) (d : Deadline) (s : St) (hd : d.now = s.now)
           omega
       · -- the front task runs; time may pass in its body (adv ≥ 0)
         have hm := foldl_applyOp_now_mono (s.body front.id)
-          { s with todos := rest0, log := .ran front.id front.when d.now rest0 :: s.log }
+          { s with todos := rest0, log := .ran front.id front.when d.now rest0 front.seq :: s.log }
         simp only at hm
         split at h
         · rename_i hemp
@@ -278,14 +278,14 @@ theorem stepTodos_wait (fuel : Nat) (d : Deadline) (s : St) (hd : d.now = s.now)
           refine ⟨hm, ?_⟩
           intro f rest h
           have : ((s.body front.id).foldl applyOp
-              { s with todos := rest0, log := .ran front.id front.when d.now rest0 :: s.log }).todos = [] := by
+              { s with todos := rest0, log := .ran front.id front.when d.now rest0 front.seq :: s.log }).todos = [] := by
             simpa using hemp
           rw [this] at h; cases h
         · split at h
           · have htick : (d.tick ((s.body front.id).foldl applyOp
-                { s with todos := rest0, log := .ran front.id front.when d.now rest0 :: s.log }).now).now
+                { s with todos := rest0, log := .ran front.id front.when d.now rest0 front.seq :: s.log }).now).now
                 = ((s.body front.id).foldl applyOp
-                { s with todos := rest0, log := .ran front.id front.when d.now rest0 :: s.log }).now := by
+                { s with todos := rest0, log := .ran front.id front.when d.now rest0 front.seq :: s.log }).now := by
               cases d <;> rfl
             have := ih _ _ htick h
             exact ⟨Int.le_trans hm this.1, this.2⟩
@@ -397,17 +397,17 @@ theorem step_bounded (fuel : Nat) (T : Int) (hT : 0 ≤ T) (d : Deadline) (s : S
             omega
           exact ⟨hmin2, by omega⟩
       · have hm := foldl_applyOp_now_mono (s.body front.id)
-          { s with todos := rest0, log := .ran front.id front.when d.now rest0 :: s.log }
+          { s with todos := rest0, log := .ran front.id front.when d.now rest0 front.seq :: s.log }
         simp only at hm
         have hb' := DBound_tick hb ((s.body front.id).foldl applyOp
-          { s with todos := rest0, log := .ran front.id front.when d.now rest0 :: s.log }).now (by omega)
+          { s with todos := rest0, log := .ran front.id front.when d.now rest0 front.seq :: s.log }).now (by omega)
         split at h
         · cases h; have := DBound_remaining hb' hT; exact ⟨this.2, this.1⟩
         · split at h
           · have htick : (d.tick ((s.body front.id).foldl applyOp
-                { s with todos := rest0, log := .ran front.id front.when d.now rest0 :: s.log }).now).now
+                { s with todos := rest0, log := .ran front.id front.when d.now rest0 front.seq :: s.log }).now).now
                 = ((s.body front.id).foldl applyOp
-                { s with todos := rest0, log := .ran front.id front.when d.now rest0 :: s.log }).now := by
+                { s with todos := rest0, log := .ran front.id front.when d.now rest0 front.seq :: s.log }).now := by
               cases d <;> rfl
             exact ih _ _ htick hb' h
           · cases h; exact ⟨Int.le_refl _, hT⟩
@@ -417,6 +417,6 @@ theorem step_bounded (fuel : Nat) (T : Int) (hT : 0 ≤ T) (d : Deadline) (s : S
 theorem legacy_sleeps_past_todo :
     ∃ (T : Int) (s : St) (f : Entry), s.todos = [f] ∧ s.now < f.when ∧
       (step false 1 T s).log.head? = some (.poll (-2147483648)) := by
-  refine ⟨-1, { todos := [⟨1, 2147483648 * 1000000⟩], now := 0 }, ⟨1, 2147483648 * 1000000⟩, rfl, by decide, by decide⟩
+  refine ⟨-1, { todos := [⟨1, 2147483648 * 1000000, 0⟩], now := 0 }, ⟨1, 2147483648 * 1000000, 0⟩, rfl, by decide, by decide⟩
 
 end SockModel.ToDos
